@@ -316,7 +316,7 @@ Qed.
 
 (* the state with the stacks of st0, data d, at position pos *)
 Definition at_state (st0 : state) (d : dstate) (pos : nat) : state :=
-  {| pc := pos; fors := fors st0; whiles := whiles st0; gosubs := gosubs st0; ds := d |}.
+  {| pc := pos; fors := fors st0; whiles := whiles st0; gosubs := gosubs st0; dptr := dptr st0; ds := d |}.
 
 Section Sim.
 Variable code : list stmt.
@@ -426,7 +426,10 @@ Lemma exec_line g f cur n rest d :
 Proof. reflexivity. Qed.
 Lemma exec_print g f cur e rest d :
   exec subs (S g) (S f) cur (TPrint e :: rest) d =
-  rval d cur e (fun z => bout [z] (exec subs g f cur rest d)).
+  match soft_div d e with
+  | Some neg => bout (soft_out neg) (exec subs g f cur rest d)
+  | None => rval d cur e (fun z => bout [z] (exec subs g f cur rest d))
+  end.
 Proof. reflexivity. Qed.
 Lemma exec_let g f cur v e rest d :
   exec subs (S g) (S f) cur (TLet v e :: rest) d =
@@ -922,11 +925,15 @@ Proof.
         simpl in Hc1. assert (Hn : nth_error code (length pre) = Some (SPrint e)) by (rewrite Hc1; apply nth_error_app_at).
         rewrite run_S, (step_at code _ (SPrint e)) by exact Hn. rewrite exec_print.
         cbv zeta. rewrite at_state_pc, at_state_ds.
+        simpl in Hcont. rewrite Nat.add_1_r in Hcont.
+        destruct (soft_div d e) as [neg|].
+        { cbn [lhs_of]. change (set_pc _ _) with (at_state st0 d (S (length pre))).
+          apply sim_ok_bout. eapply sim_ok_weaken; [|apply Hcont; auto]. lia. }
         apply sim_with_val; auto.
         { eapply line_here; eauto; intros; discriminate. }
         intros z. cbn [lhs_of].
         change (set_pc _ _) with (at_state st0 d (S (length pre))).
-        apply sim_ok_bout. simpl in Hcont. rewrite Nat.add_1_r in Hcont.
+        apply sim_ok_bout.
         eapply sim_ok_weaken; [|apply Hcont; auto]. lia.
       * (* LET *)
         simpl in Hc1. assert (Hn : nth_error code (length pre) = Some (SLet v e)) by (rewrite Hc1; apply nth_error_app_at).
